@@ -67,6 +67,8 @@ def strat(draw, tier):
     n_alg = len(pool) if big else draw(st.integers(3, 4))
     spec['algorithms'] = list(draw(st.permutations(pool)))[:n_alg]
     spec['quick_estimate'] = draw(st.sampled_from([False, False, False, True]))
+    # estimate(run_bootstrap=True) with a few replications, then the SAME object is used again
+    spec['bootstrap'] = (not spec['quick_estimate']) and draw(st.sampled_from([0, 0, 0, 2, 3]))
     return spec
 
 
@@ -87,6 +89,8 @@ def _new_biogeme(spec, algorithm):
     params.set_value(name='number_of_threads', value=1)
     params.set_value(name='tolerance', value=1e-7)
     params.set_value(name='max_iterations', value=500)
+    if spec.get('bootstrap'):
+        params.set_value(name='bootstrap_samples', value=int(spec['bootstrap']))
     the = bio.BIOGEME(build.build_database(ec.table_of(spec)), formulas, parameters=params)
     the.modelName = 'verif_c07'
     the.save_iterations = False
@@ -106,7 +110,8 @@ def _observe(spec):
         one['x0'] = x0
         one['init_like'] = float(the.calculate_likelihood(x0, scaled=False))
         try:
-            r = the.quick_estimate() if spec['quick_estimate'] else the.estimate()
+            np.random.seed(spec['data_seed'] % 1000)
+            r = the.quick_estimate() if spec['quick_estimate'] else the.estimate(run_bootstrap=bool(spec.get('bootstrap')))
         except Exception as e:  # noqa: reported, the judge decides
             one['raised'] = (type(e).__name__, str(e)[:300])
             out[algo] = one
@@ -119,6 +124,12 @@ def _observe(spec):
         one['initLogLike'] = None if r.data.initLogLike is None else float(r.data.initLogLike)
         one['g'], one['H'], one['bhhh'] = _arr(r.data.g), _arr(r.data.H), _arr(r.data.bhhh)
         one['convergence'] = bool(r.data.convergence)
+        # the estimated object is used again (simulation / likelihood at the estimates)
+        xs_ = [one['beta'][n] for n in the.free_beta_names]
+        one['same_object_like'] = float(the.calculate_likelihood(xs_, scaled=False))
+        sim_ = the.simulate(one['beta'])
+        one['same_object_sim'] = np.asarray(sim_['log_like'], dtype=float).tolist()
+        one['bootstrap_shape'] = None if r.data.bootstrap is None else list(np.asarray(r.data.bootstrap).shape)
         one['has_converged'] = bool(r.algorithm_has_converged())
         free = loglike.dict_of_elementary_expression(T.FREE_BETA)
         fixed = loglike.dict_of_elementary_expression(T.FIXED_BETA)
@@ -158,7 +169,7 @@ def judge(spec) -> Outcome:
         well = True
     out.classes += [f'bounds={spec["bounds_kind"]}', 'active_at_optimum' if active.any() else 'interior_optimum',
                     'well_conditioned' if well else 'ill_conditioned', f'free={k}',
-                    'quick_estimate' if spec['quick_estimate'] else 'estimate']
+                    'quick_estimate' if spec['quick_estimate'] else 'estimate', 'bootstrap' if spec.get('bootstrap') else 'no_bootstrap']
     res = isolate.call(_observe, spec, timeout=600)
     if not res['ok']:
         out.fail(f'raises:{res["exc_type"]}', f'estimation harness raised {res["exc_type"]}: {res["exc_msg"][:300]}')
@@ -190,6 +201,14 @@ def judge(spec) -> Outcome:
         if 'fresh_like' in one and not abs(one['logLike'] - one['fresh_like']) <= 1e-9 * (1 + abs(L_ref)):
             out.fail(f'{algo}:final_loglike_fresh', f'reported {one["logLike"]!r}, a fresh object gives {one["fresh_like"]!r} '
                                                     f'at the returned estimates' + where)
+        tag = ':after_bootstrap' if spec.get('bootstrap') else ''
+        if not abs(one['same_object_like'] - L_ref) <= 1e-9 * (1 + abs(L_ref)):
+            out.fail(f'{algo}:same_object_likelihood{tag}', f'after the estimation the same BIOGEME object computes {one["same_object_like"]!r} at the estimates; the likelihood there is {L_ref!r}' + where)
+        ll_rows = ref.per_obs(x)[0]
+        if len(one['same_object_sim']) != len(ll_rows) or not np.all(np.abs(np.asarray(one['same_object_sim']) - ll_rows) <= 1e-9 * (1 + np.abs(ll_rows))):
+            out.fail(f'{algo}:same_object_simulate{tag}', f'after the estimation simulate() of the same object returns {one["same_object_sim"][:4]}..., the per-observation values at the estimates are {ll_rows[:4].tolist()}...' + where)
+        if spec.get('bootstrap') and one['bootstrap_shape'] != [int(spec['bootstrap']), k]:
+            out.fail(f'{algo}:bootstrap_shape', f'bootstrap sample of shape {one["bootstrap_shape"]}')
         L0 = ref.loglike(np.array(one['x0']))
         if not abs(one['init_like'] - L0) <= 1e-9 * (1 + abs(L0)):
             out.fail(f'{algo}:init_loglike_value', f'likelihood at the starting values {one["init_like"]!r} vs {L0!r}' + where)
@@ -250,6 +269,147 @@ def judge(spec) -> Outcome:
     return out
 
 
+# ---------------------------------------------------------------------------------------------
+# a second family: linear regression with normal errors (likelihood undefined for sigma <= 0)
+
+TR_BOUNDS = ['simple_bounds', 'simple_bounds_newton', 'simple_bounds_BFGS', 'automatic']
+
+
+@st.composite
+def strat_regression(draw, tier):
+    names = draw(st.lists(st.sampled_from(ec.PARAM_NAMES), min_size=3, max_size=3, unique=True))
+    spec = dict(names=names,  # intercept, slope, sigma
+                true=[draw(gen.dyadic(-2, 2, 2)), draw(gen.dyadic(-2, 2, 2)), draw(st.sampled_from([0.25, 0.5, 1.0]))],
+                start=[draw(gen.dyadic(-1, 1, 2)), draw(gen.dyadic(-1, 1, 2)), draw(st.sampled_from([1.0, 2.0, 5.0, 8.0]))],
+                n_rows=draw(st.integers(20, 80)), data_seed=draw(st.integers(0, 10**6)),
+                sigma_bound=draw(st.sampled_from(['positive', 'positive', 'none'])))
+    # without a bound on sigma the likelihood is NaN in part of the domain: only the algorithms that evaluate their trial
+    # points (trust region with bounds) are run there, plus scipy (see known findings)
+    pool = BOUND_AWARE if spec['sigma_bound'] == 'positive' else TR_BOUNDS + ['scipy']
+    spec['algorithms'] = list(draw(st.permutations(pool)))[:3 if tier == 'quick' else len(pool)]
+    return spec
+
+
+def _regression_data(spec):
+    rs = np.random.RandomState(spec['data_seed'])
+    x = np.round(rs.normal(size=spec['n_rows']), 3)
+    y = np.round(spec['true'][0] + spec['true'][1] * x + spec['true'][2] * rs.normal(size=spec['n_rows']), 3)
+    return x, y
+
+
+def _regression_reference(spec, point):
+    """(L, gradient, Hessian, BHHH) in the order (intercept, slope, sigma)."""
+    x, y = _regression_data(spec)
+    a, b, sg = point
+    r = y - a - b * x
+    ll = -np.log(sg) - 0.5 * r * r / sg**2
+    g = np.stack([r / sg**2, r * x / sg**2, -1 / sg + r * r / sg**3], axis=1)
+    H = np.zeros((3, 3))
+    H[0, 0] = np.sum(-1 / sg**2 + 0 * x)
+    H[0, 1] = H[1, 0] = np.sum(-x / sg**2)
+    H[1, 1] = np.sum(-x * x / sg**2)
+    H[0, 2] = H[2, 0] = np.sum(-2 * r / sg**3)
+    H[1, 2] = H[2, 1] = np.sum(-2 * r * x / sg**3)
+    H[2, 2] = np.sum(1 / sg**2 - 3 * r * r / sg**4)
+    return float(ll.sum()), g.sum(0), H, g.T @ g, g
+
+
+def _observe_regression(spec):
+    import biogeme.biogeme as bio
+    import pandas as pd
+    import biogeme.database as db
+    from biogeme.expressions import Beta, Variable, log
+    from biogeme.parameters import Parameters
+
+    x, y = _regression_data(spec)
+    out = {}
+    for algo in spec['algorithms']:
+        na, nb, ns = spec['names']
+        a = Beta(na, spec['start'][0], None, None, 0)
+        b = Beta(nb, spec['start'][1], None, None, 0)
+        sg = Beta(ns, spec['start'][2], 1e-3 if spec['sigma_bound'] == 'positive' else None, None, 0)
+        res_ = (Variable('y') - a - b * Variable('x')) / sg
+        loglike = -log(sg) - 0.5 * res_ * res_
+        params = Parameters()
+        params.set_value(name='optimization_algorithm', value=algo)
+        params.set_value(name='number_of_threads', value=1)
+        params.set_value(name='max_iterations', value=500)
+        the = bio.BIOGEME(db.Database('reg', pd.DataFrame({'x': x, 'y': y})), loglike, parameters=params)
+        the.modelName = 'verif_c07r'
+        the.save_iterations = the.generate_html = the.generate_pickle = False
+        one = {'names': list(the.free_beta_names)}
+        try:
+            r = the.estimate()
+        except Exception as e:  # noqa: reported, the judge decides
+            one['raised'] = (type(e).__name__, str(e)[:300])
+            out[algo] = one
+            if type(e).__name__ == 'RuntimeError':
+                break
+            continue
+        one['beta'] = {n: float(v) for n, v in zip(r.data.betaNames, r.data.betaValues)}
+        one['logLike'] = float(r.data.logLike)
+        one['initLogLike'] = float(r.data.initLogLike)
+        one['g'], one['H'], one['bhhh'] = _arr(r.data.g), _arr(r.data.H), _arr(r.data.bhhh)
+        one['has_converged'] = bool(r.algorithm_has_converged())
+        one['init_after'] = {n_: float(e_.initValue) for n_, e_ in ((na, a), (nb, b), (ns, sg))}
+        out[algo] = one
+    return out
+
+
+def judge_regression(spec) -> Outcome:
+    out = Outcome()
+    names = spec['names']
+    order = sorted(range(3), key=lambda i: names[i])
+    tag = '[nan_region]' if spec['sigma_bound'] == 'none' else ''
+    out.classes += [f'sigma_bound={spec["sigma_bound"]}', f'sigma_start={spec["start"][2]}']
+    res = isolate.call(_observe_regression, spec, timeout=600)
+    if not res['ok']:
+        out.fail(f'{tag}regression:raises:{res["exc_type"]}', f'estimation harness raised {res["exc_type"]}: {res["exc_msg"][:300]}')
+        return out
+    L0 = _regression_reference(spec, spec['start'])[0]
+    for algo in spec['algorithms']:
+        one = res['value'].get(algo)
+        if one is None:
+            continue
+        out.classes.append(f'algorithm={algo}')
+        where = (f' [{algo}; regression y = {names[0]} + {names[1]} x + {names[2]} eps; start {spec["start"]}; truth {spec["true"]}; '
+                 f'{spec["n_rows"]} rows, seed {spec["data_seed"]}; bound on sigma: {spec["sigma_bound"]}]')
+        if 'raised' in one:
+            out.fail(f'{tag}{algo}:regression:raises:{one["raised"][0]}', f'estimate() raised {one["raised"]}' + where)
+            continue
+        pt = [one['beta'].get(n) for n in names]
+        if any(v is None or not math.isfinite(v) for v in pt) or not math.isfinite(one['logLike']):
+            out.fail(f'{tag}{algo}:regression:not_finite', f'estimates {one["beta"]}, final log likelihood {one["logLike"]!r}' + where)
+            continue
+        if spec['sigma_bound'] == 'positive' and pt[2] < 1e-3 - 1e-12:
+            out.fail(f'{tag}{algo}:regression:bounds', f'sigma = {pt[2]!r} below its bound 0.001' + where)
+            continue
+        if pt[2] <= 0:
+            out.fail(f'{tag}{algo}:regression:undefined_point', f'returned sigma = {pt[2]!r} where the likelihood is undefined; '
+                                                                f'reported final log likelihood {one["logLike"]!r}' + where)
+            continue
+        L, G, H, B, _ = _regression_reference(spec, pt)
+        if not abs(one['logLike'] - L) <= 1e-9 * (1 + abs(L)):
+            out.fail(f'{tag}{algo}:regression:final_loglike', f'reported {one["logLike"]!r}, likelihood at the estimates {L!r}' + where)
+        if not abs(one['initLogLike'] - L0) <= 1e-9 * (1 + abs(L0)):
+            out.fail(f'{tag}{algo}:regression:init_loglike', f'reported initial {one["initLogLike"]!r} vs {L0!r}' + where)
+        if not one['logLike'] >= L0 - 1e-9 * (1 + abs(L0)):
+            out.fail(f'{tag}{algo}:regression:decrease', f'final log likelihood {one["logLike"]!r} is below the initial one {L0!r}' + where)
+        ix = np.array(order)
+        scale = 1e-6 * (1 + np.abs(_regression_reference(spec, pt)[4]).sum())
+        for nm_, got, want in (('g', one['g'], G[ix]), ('H', one['H'], H[np.ix_(ix, ix)]), ('bhhh', one['bhhh'], B[np.ix_(ix, ix)])):
+            gv = None if got is None else np.asarray(got, dtype=float)
+            big = scale * (1 if nm_ == 'g' else 100 / min(1.0, pt[2])**2)
+            if gv is None or gv.shape != want.shape or not np.all(np.abs(gv - want) <= big):
+                out.fail(f'{tag}{algo}:regression:reported_{nm_}', f'reported {nm_} = {got} vs {want.tolist()} at the estimates' + where)
+        if one['init_after'] != one['beta']:
+            out.fail(f'{tag}{algo}:regression:write_back', f'starting values after estimate() {one["init_after"]} vs estimates {one["beta"]}' + where)
+        if one['has_converged']:
+            out.nontrivial = True
+    out.evaluations = len(spec['algorithms'])
+    return out
+
+
 def render(spec):
     return (f'logit {spec["alts"]} params {spec["params"]} terms {spec["terms"]} rows {spec["n_rows"]} '
             f'weights {spec["weights"]} bounds {spec["bounds_kind"]} algorithms {spec["algorithms"]} '
@@ -262,5 +422,12 @@ SUBCHECKS = [
              'adversarial names, optional fixed parameter, 25-60 rows) x bound configurations {none, inactive, one-sided, '
              'active at the optimum} x 3-4 (thorough: all) algorithm names x estimate/quick_estimate; non-trivial: convergence '
              'reported, >= 2 free parameters, and an active bound or >= 4 algorithms compared', max_skip_fraction=0.2),
+    SubCheck('regression', strat_regression, judge_regression,
+             lambda c: f"regression {c['names']} start {c['start']} truth {c['true']} rows {c['n_rows']} sigma bound {c['sigma_bound']} {c['algorithms']}",
+             dict(quick=160, thorough=3000),
+             'linear regression with normal errors (not a logit, not concave in sigma): sigma bounded below by 0.001 (all '
+             'bound-aware algorithms) or unbounded, so that the likelihood is undefined for trial points with sigma <= 0 '
+             '(trust-region-with-bounds family and scipy): finite feasible estimates, final = recomputed >= initial, reported '
+             'g/H/BHHH, write-back; non-trivial: convergence reported', max_skip_fraction=0.2),
 ]
-RULE = SUBCHECKS[0].rule
+RULE = ' | '.join(f'{s.name}: {s.rule}' for s in SUBCHECKS)
